@@ -176,6 +176,152 @@ fn check_conditionals(dir: &std::path::Path) -> bool {
     true
 }
 
+
+// ---------------------------------------------------------------- HeaderMap against a reference multimap (C18)
+use actix_web::http::header::{HeaderMap, HeaderName, HeaderValue};
+
+#[derive(Clone, Copy, Debug)]
+enum Op { Insert(usize, usize), Append(usize, usize), Remove(usize), RetainNot(usize), Drain, Clear }
+
+fn check_header_map() -> bool {
+    let names = ["x-a", "x-b"];
+    let upper = ["X-A", "X-B"];
+    let vals = ["1", "2"];
+    let mut ops = Vec::new();
+    for k in 0..2 { for v in 0..2 { ops.push(Op::Insert(k, v)); ops.push(Op::Append(k, v)); } ops.push(Op::Remove(k)); }
+    for v in 0..2 { ops.push(Op::RetainNot(v)); }
+    ops.push(Op::Drain);
+    ops.push(Op::Clear);
+    let mut seqs: Vec<Vec<Op>> = vec![vec![]];
+    let mut layer: Vec<Vec<Op>> = vec![vec![]];
+    for _ in 0..4 {
+        let mut next = Vec::new();
+        for s in &layer { for o in &ops { let mut t = s.clone(); t.push(*o); next.push(t); } }
+        seqs.extend(next.iter().cloned());
+        layer = next;
+    }
+    let mut n = 0usize;
+    for seq in &seqs {
+        n += 1;
+        let r = catch_unwind(AssertUnwindSafe(|| {
+            let mut map = HeaderMap::new();
+            // reference: name index -> values in insertion order (names without values are absent)
+            let mut model: Vec<Vec<usize>> = vec![vec![], vec![]];
+            for op in seq {
+                match *op {
+                    Op::Insert(k, v) => { map.insert(HeaderName::from_static(names[k]), HeaderValue::from_static(vals[v])); model[k] = vec![v]; }
+                    Op::Append(k, v) => { map.append(HeaderName::from_static(names[k]), HeaderValue::from_static(vals[v])); model[k].push(v); }
+                    Op::Remove(k) => {
+                        let removed: Vec<String> = map.remove(upper[k]).map(|v| v.to_str().unwrap().to_owned()).collect();
+                        let exp: Vec<String> = model[k].iter().map(|v| vals[*v].to_owned()).collect();
+                        if removed != exp { return Err(format!("remove({}) yielded {:?}, expected {:?}", names[k], removed, exp)); }
+                        model[k].clear();
+                    }
+                    Op::RetainNot(v) => { map.retain(|_, val| val.as_bytes() != vals[v].as_bytes()); for m in model.iter_mut() { m.retain(|x| *x != v); } }
+                    Op::Drain => {
+                        let mut got: Vec<Vec<String>> = vec![vec![], vec![]];
+                        let mut cur: Option<usize> = None;
+                        let d = map.drain();
+                        let hint = d.size_hint();
+                        let mut count = 0;
+                        for (name, val) in d {
+                            count += 1;
+                            if let Some(nm) = name { cur = names.iter().position(|x| *x == nm.as_str()); }
+                            match cur { Some(k) => got[k].push(val.to_str().unwrap().to_owned()), None => return Err("drain: a value without a name before any name".to_owned()) }
+                        }
+                        let total: usize = model.iter().map(|m| m.len()).sum();
+                        if hint != (total, Some(total)) || count != total { return Err(format!("drain: size_hint {:?}, yielded {}, expected {}", hint, count, total)); }
+                        for k in 0..2 { let exp: Vec<String> = model[k].iter().map(|v| vals[*v].to_owned()).collect(); if got[k] != exp { return Err(format!("drain: values of {} are {:?}, expected {:?}", names[k], got[k], exp)); } }
+                        for m in model.iter_mut() { m.clear(); }
+                    }
+                    Op::Clear => { map.clear(); for m in model.iter_mut() { m.clear(); } }
+                }
+                // observation after every step
+                let total: usize = model.iter().map(|m| m.len()).sum();
+                let keys = model.iter().filter(|m| !m.is_empty()).count();
+                if map.len() != total { return Err(format!("len() = {}, expected {}", map.len(), total)); }
+                if map.len_keys() != keys { return Err(format!("len_keys() = {}, expected {}", map.len_keys(), keys)); }
+                if map.is_empty() != (total == 0) { return Err(format!("is_empty() = {}", map.is_empty())); }
+                let it = map.iter();
+                if it.size_hint() != (total, Some(total)) { return Err(format!("iter().size_hint() = {:?}, expected {}", it.size_hint(), total)); }
+                let mut seen: Vec<Vec<String>> = vec![vec![], vec![]];
+                for (nm, val) in it { match names.iter().position(|x| *x == nm.as_str()) { Some(k) => seen[k].push(val.to_str().unwrap().to_owned()), None => return Err("iter: unknown name".to_owned()) } }
+                for k in 0..2 {
+                    let exp: Vec<String> = model[k].iter().map(|v| vals[*v].to_owned()).collect();
+                    if seen[k] != exp { return Err(format!("iter: values of {} are {:?}, expected {:?}", names[k], seen[k], exp)); }
+                    let all: Vec<String> = map.get_all(upper[k]).map(|v| v.to_str().unwrap().to_owned()).collect();
+                    if all != exp { return Err(format!("get_all({}) = {:?}, expected {:?}", upper[k], all, exp)); }
+                    let first = map.get(upper[k]).map(|v| v.to_str().unwrap().to_owned());
+                    if first != exp.first().cloned() { return Err(format!("get({}) = {:?}, expected {:?}", upper[k], first, exp.first())); }
+                    if map.contains_key(upper[k]) != !exp.is_empty() { return Err(format!("contains_key({}) wrong", upper[k])); }
+                }
+            }
+            // conversion from and to http::HeaderMap preserves every pair (values of a name in order)
+            let mut hm = http::HeaderMap::new();
+            for k in [1usize, 0] { for v in &model[k] { hm.append(http::header::HeaderName::from_static(names[k]), http::HeaderValue::from_static(vals[*v])); } }
+            let conv = HeaderMap::from(hm.clone());
+            for k in 0..2 {
+                let exp: Vec<String> = model[k].iter().map(|v| vals[*v].to_owned()).collect();
+                let all: Vec<String> = conv.get_all(names[k]).map(|v| v.to_str().unwrap().to_owned()).collect();
+                if all != exp { return Err(format!("from http::HeaderMap: values of {} are {:?}, expected {:?}", names[k], all, exp)); }
+            }
+            let back = http::HeaderMap::from(map.clone());
+            for k in 0..2 {
+                let exp: Vec<String> = model[k].iter().map(|v| vals[*v].to_owned()).collect();
+                let all: Vec<String> = back.get_all(names[k]).iter().map(|v| v.to_str().unwrap().to_owned()).collect();
+                if all != exp { return Err(format!("into http::HeaderMap: values of {} are {:?}, expected {:?}", names[k], all, exp)); }
+            }
+            Ok(())
+        }));
+        let res = match r { Ok(x) => x, Err(_) => Err("panic".to_owned()) };
+        if let Err(why) = res {
+            println!("BOUNDED-FAIL header_map_ops input={:?} expected=the reference multimap got={}", seq, why);
+            return false;
+        }
+    }
+    println!("BOUNDED-OK header_map_ops cases={}", n);
+    true
+}
+
+// ---------------------------------------------------------------- typed header parsers never panic (C19)
+fn check_header_parsers_no_panic() -> bool {
+    use actix_web::http::header::{ContentDisposition, Range};
+    use std::str::FromStr;
+    let alpha: &[u8] = b"a;=\"\\*' -,";
+    let mut all: Vec<Vec<u8>> = vec![vec![]];
+    let mut layer: Vec<Vec<u8>> = vec![vec![]];
+    for _ in 0..6 {
+        let mut next = Vec::new();
+        for s in &layer { for &c in alpha { let mut t = s.clone(); t.push(c); next.push(t); } }
+        all.extend(next.iter().cloned());
+        layer = next;
+    }
+    let mut n = 0usize;
+    for s in &all {
+        n += 1;
+        let mut with_prefix = b"form-data; name".to_vec();
+        with_prefix.extend_from_slice(s);
+        for bytes in [s.clone(), with_prefix] {
+            if let Ok(hv) = HeaderValue::from_bytes(&bytes) {
+                if catch_unwind(AssertUnwindSafe(|| { let _ = ContentDisposition::from_raw(&hv); })).is_err() {
+                    println!("BOUNDED-FAIL header_parsers_no_panic input=Content-Disposition {:?} expected=Ok or Err got=panic", String::from_utf8_lossy(&bytes));
+                    return false;
+                }
+            }
+        }
+        let mut r = b"bytes=".to_vec();
+        r.extend(s.iter().map(|c| match c { b'a' => b'1', b'*' => b'9', b'\'' => b'0', o => *o }));
+        if let Ok(text) = std::str::from_utf8(&r) {
+            if catch_unwind(AssertUnwindSafe(|| { if let Ok(Range::Bytes(specs)) = Range::from_str(text) { for sp in specs { for len in [0u64, 1, 10, u64::MAX] { let _ = sp.to_satisfiable_range(len); } } } })).is_err() {
+                println!("BOUNDED-FAIL header_parsers_no_panic input=Range {:?} expected=Ok or Err got=panic", text);
+                return false;
+            }
+        }
+    }
+    println!("BOUNDED-OK header_parsers_no_panic cases={}", n);
+    true
+}
+
 fn main() {
     std::panic::set_hook(Box::new(|_| {}));
     let dir = std::env::current_dir().unwrap().join("files");
@@ -184,5 +330,7 @@ fn main() {
     ok &= check_negotiate();
     ok &= check_ranges(&dir);
     ok &= check_conditionals(&dir);
+    ok &= check_header_map();
+    ok &= check_header_parsers_no_panic();
     std::process::exit(if ok { 0 } else { 1 });
 }
